@@ -30,7 +30,9 @@ from vlib import coq_string as cs
 TRANSIENT = ("inconsistent assumptions", "bad magic number", "is corrupted", "truncated", "End_of_file", "Unable to locate library",
              "Cannot find a physical path")
 ERR = {"AttributeError": "EAttribute", "KeyError": "EKey", "TypeError": "EType", "ValueError": "EValue", "IndexError": "EIndex"}
-PROPS = {"RolesGen.v": "PropsGen/C03roles.v", "DgGen.v": "PropsGen/C03dg.v"}
+# theorem files per generated file, compiled in this order (C03roles2 requires C03roles, C03roles3 requires both): small files so
+# that a broken proof names the step it belongs to
+PROPS = {"RolesGen.v": ["PropsGen/C03roles.v", "PropsGen/C03roles2.v", "PropsGen/C03roles3.v"], "DgGen.v": ["PropsGen/C03dg.v"]}
 
 
 def transient(out):
@@ -418,22 +420,26 @@ def stage(ctx, gendir, fn, what):
             ctx.ensure_static()
         ctx.obligation("generated Gen/%s type-checks" % fn, "translation", compiled, out)
         ctx.log("coqc Gen/%s: %s in %.1fs" % (fn, "ok" if compiled else "FAILED", dt))
-    p = PROPS[fn]
-    if not os.path.exists(os.path.join(vlib.COQ, p)):
-        return ok and compiled
-    # the theorems are stated inside a Section (indented); `Print Assumptions` for each follows the section
     import re
-    names = re.findall(r"^\s*(?:Theorem|Corollary)\s+([A-Za-z0-9_']+)", open(os.path.join(vlib.COQ, p)).read(), re.M)
-    if ok and compiled:
-        okp, outp = ctx.compile_theorems(p, theorems=names)
-        if not okp and transient(outp):
-            ctx.obligations = [o for o in ctx.obligations if not (o["kind"] == "theorem" and ("(%s)" % p) in o["name"])]
-            ctx.ensure_static()
-            ctx.coqc(os.path.join(gendir, fn))
-            ctx.compile_theorems(p, theorems=names)
-    else:
-        for n in names:
-            ctx.obligation("theorem %s (%s)" % (n, p), "theorem", False, "generated definitions unavailable (translator failed closed or Gen/%s does not type-check)" % fn)
+    for p in PROPS[fn]:
+        if not os.path.exists(os.path.join(vlib.COQ, p)):
+            continue
+        # the theorems are stated inside a Section (indented); `Print Assumptions` for each follows the section
+        names = re.findall(r"^\s*(?:Theorem|Corollary)\s+([A-Za-z0-9_']+)", open(os.path.join(vlib.COQ, p)).read(), re.M)
+        if ok and compiled:
+            okp, outp = ctx.compile_theorems(p, theorems=names)
+            if not okp and transient(outp):
+                ctx.obligations = [o for o in ctx.obligations if not (o["kind"] == "theorem" and ("(%s)" % p) in o["name"])]
+                ctx.ensure_static()
+                ctx.coqc(os.path.join(gendir, fn))
+                for q in PROPS[fn]:
+                    if q == p:
+                        break
+                    ctx.coqc(os.path.join(vlib.COQ, q))
+                ctx.compile_theorems(p, theorems=names)
+        else:
+            for n in names:
+                ctx.obligation("theorem %s (%s)" % (n, p), "theorem", False, "generated definitions unavailable (translator failed closed or Gen/%s does not type-check)" % fn)
     return ok and compiled
 
 
